@@ -76,8 +76,10 @@ def find_swap(fn: ast.FunctionDef):
             for k in a:
                 va, vb = a[k], b[k]
                 if isinstance(va, ast.Name) and isinstance(vb, ast.Name) and va.id in params and vb.id in params:
+                    if k == "_" or va.id == vb.id:
+                        continue  # a discarded value, or the same value on both sides: not a participant of the swap
                     aliases[k] = (va.id, vb.id)
-                elif isinstance(va, ast.Constant) and isinstance(vb, ast.Constant) and {va.value, vb.value} == {True, False}:
+                elif isinstance(va, ast.Constant) and isinstance(vb, ast.Constant) and {va.value, vb.value} == {True, False} and k != "_":
                     flag = k
             if aliases:
                 return s, aliases, flag
